@@ -65,6 +65,8 @@ def prepare(res, pid, harness="h_views", sources=("h_views.cpp",), flags=(), lib
             path = core.write_replay(pid, "", {"property": pid, "found-by": step, "log": log[-3000:]})
             res.violation(path, step, no_input=True)
         return None
+    if res.tier == "thorough" and coq["ok"]:
+        core.coqchk_property(res, pid)
     return coq, exe
 
 
